@@ -60,9 +60,11 @@ namespace vp_replay {
 int main(int argc, char** argv)
 {
     alarm(10);
-    (void)argc;
+    if (argc < 2) return 2;
+    std::string vp_f = argv[1];
     try {
         VP_REPLAY_CALL
+        { std::printf("NOSHIM\n"); return 3; }
     } catch (std::overflow_error const& e) {
         std::printf("THROW %s\n", e.what());
     } catch (std::exception const& e) {
@@ -73,16 +75,23 @@ int main(int argc, char** argv)
 '''
 
 
-def driver_source(kernel_src, shim, arg_types, ret_type):
-    args = ', '.join('vp_replay::parse<%s>(argv[%d])' % (cxxtypes.CXX_NAME.get(t, t), i + 1)
-                     for i, t in enumerate(arg_types))
-    if ret_type in (None, 'void'):
-        call = '%s(%s); std::printf("VALUE void\\n");' % (shim, args)
-    elif ret_type == 'struct':
-        call = 'auto r = %s(%s); std::printf("VALUE "); vp_print_result(r); std::printf("\\n");' % (shim, args)
-    else:
-        call = 'auto r = %s(%s); std::printf("VALUE "); vp_replay::print(r); std::printf("\\n");' % (shim, args)
-    return kernel_src + DRIVER.replace('VP_REPLAY_CALL', call)
+def driver_source(kernel_src, shims):
+    """shims: list of (name, arg short types, ret) -> one dispatcher main for the whole kernel"""
+    calls = []
+    seen = set()
+    for shim, arg_types, ret_type in shims:
+        if shim in seen:
+            continue
+        seen.add(shim)
+        args = ', '.join('vp_replay::parse<%s>(argv[%d])' % (cxxtypes.CXX_NAME.get(t, t), i + 2)
+                         for i, t in enumerate(arg_types))
+        need = len(arg_types) + 2
+        if ret_type in (None, 'void'):
+            call = '%s(%s); std::printf("VALUE void\\n");' % (shim, args)
+        else:
+            call = 'auto r = %s(%s); std::printf("VALUE "); vp_replay::print(r); std::printf("\\n");' % (shim, args)
+        calls.append('if (vp_f == "%s" && argc == %d) { %s } else' % (shim, need, call))
+    return kernel_src + DRIVER.replace('VP_REPLAY_CALL', '\n        '.join(calls))
 
 
 def fmt_arg(v, t):
